@@ -115,9 +115,8 @@ Section CopyMain.
       exists r, p. repeat split; auto. apply range_copy_nodes. fold B in Rp. lia.
     Qed.
 
-    (** the root of the copy keeps the parent field of the original (recorded, not claimed) *)
-    Theorem copy_root_parent :
-      exists r r', nget h n = Some r /\ nget h' n' = Some r' /\ parent r' = parent r.
+    (** the copy is a detached tree: its root has no parent *)
+    Theorem copy_root_parent : exists r', nget h' n' = Some r' /\ parent r' = None.
     Proof. exact (cp_parent _ _ _ _ _ P). Qed.
 
     (** node objects and dict objects reachable from the copy are disjoint from those
